@@ -15,7 +15,7 @@ import numpy as np
 
 from env import get_xp, tonp
 from env import resume_harness as rh
-from env.targets import Monitor
+from env.targets import InjectedFault, Monitor
 from mc import bfs as B
 from mc import explorer
 from mc.par import pmap
@@ -24,7 +24,8 @@ from mc.report import Report
 LEVEL = "model_checking"
 RULE = ("BFS over operation sequences on one real Aspire instance + one real HDF5 file; alphabet: fit(A), fit(B), "
         "fit(B, overwrite=True) [explicit checkpoint_path, or path taken from the active auto_checkpoint context], "
-        "sample(importance|smc) [explicit path | context | none], enter auto_checkpoint(file), leave it, resume_from_file; "
+        "sample(importance|smc) [explicit path | context | none], an SMC call interrupted by an exception from the user's likelihood right after "
+        "it wrote a checkpoint (the user catches it and carries on) [explicit path | context], enter auto_checkpoint(file), leave it, resume_from_file; "
         "complete to depth 4 (quick) / 5 (thorough) from the empty state (split by the first two actions over the "
         "worker pool); abstract state = (config present + sampler_type, flow present, file-flow == memory-flow, "
         "checkpoint present + its sampler, checkpoint-log q reproduced by file flow / by memory flow, stack of context "
@@ -45,6 +46,33 @@ def data(which):
     return np.stack([rng.normal(2.5, 0.4, 48), rng.normal(-1.5, 1.6, 48)], axis=1)
 
 
+class CrashMonitor(Monitor):
+    """Raises at the first user-callable call made after ``armed()`` became true (used to interrupt a sampling call
+    right after it has written a checkpoint)."""
+
+    armed = None
+
+    def _tick(self, kind):
+        if self.armed is not None and self.armed():
+            raise InjectedFault(f"injected fault after a checkpoint was written ({kind})")
+        return super()._tick(kind)
+
+
+def checkpoint_stamp(path):
+    """Digest of the stored checkpoint payload (None if there is none / the file is being written)."""
+    import hashlib
+
+    if not os.path.exists(path):
+        return None
+    try:
+        with h5py.File(path, "r") as f:
+            if "checkpoint" in f and "state" in f["checkpoint"]:
+                return hashlib.sha1(f["checkpoint"]["state"][...].tobytes()).hexdigest()
+    except OSError:
+        return "busy"
+    return None
+
+
 class World:
     def __init__(self, tmpdir):
         import _kernel
@@ -59,10 +87,13 @@ class World:
         _kernel.reset(mode="det", scale=0.5, horizon=100)
         orng.CONFIG["factory"] = None
         orng.CONFIG["seed"] = 3
-        self.mon = Monitor(p["like"], p["prior"], "numpy", keep_points=False)
+        self.mon = CrashMonitor(p["like"], p["prior"], "numpy", keep_points=False)
         self.a = Aspire(log_likelihood=self.mon.log_likelihood, log_prior=self.mon.log_prior, dims=2, parameters=PARAMS,
                         prior_bounds=None, bounded_to_unbounded=False, xp=get_xp("numpy"), flow_backend="zuko",
                         hidden_features=[8], transforms=1)
+        self.config_writer = None  # which kind of call wrote /aspire_config last (harness-side wrapper around the instance's save_config)
+        self.current = None
+        self._watch_config_writes()
         self.stack = []  # context managers entered
         self.error = None
         self.fitted = False
@@ -71,6 +102,17 @@ class World:
         self.last_fit_overwrite = None
         self.overwriting_fit_after_checkpoint = False
         self.resumed_instance = False
+        self.last_file_sampler = None  # class of the sampler run by the last sampling call that targeted the file
+        self.crashes = 0
+
+    def _watch_config_writes(self):
+        inner = self.a.save_config
+
+        def save_config(*args, **kwargs):
+            self.config_writer = self.current
+            return inner(*args, **kwargs)
+
+        self.a.save_config = save_config
 
     # --- actions -------------------------------------------------------
     def do(self, act):
@@ -79,13 +121,14 @@ class World:
         from aspire.samples import Samples
 
         kind = act[0]
+        self.current = kind if kind != "sample" else f"sample:{act[1]}"
         try:
             if kind == "fit":
                 which, overwrite, how = act[1], act[2], act[3]
                 s = Samples(x=data(which), parameters=PARAMS, xp=get_xp("numpy"))
                 torch.manual_seed(0)
                 kw = {"checkpoint_path": self.path} if how == "path" else {}
-                self.a.fit(s, n_epochs=1, batch_size=48, overwrite=overwrite, **kw)
+                self.a.fit(s, n_epochs=1, batch_size=48, lr=3e-2, overwrite=overwrite, **kw)  # large lr: every fit changes the density by far more than TOL
                 self.fitted = True
                 self.last_fit_overwrite = overwrite
                 if overwrite:
@@ -93,6 +136,7 @@ class World:
             elif kind == "sample":
                 sampler, how = act[1], act[2]
                 kw = {"checkpoint_path": self.path} if how == "path" else {}
+                targets_file = how == "path" or getattr(self.a, "_checkpoint_defaults", None) is not None
                 torch.manual_seed(1)
                 if sampler == "smc":
                     self.a.sample_posterior(n_samples=4, sampler="smc", n_steps=1, adaptive=False,
@@ -100,6 +144,25 @@ class World:
                     self.overwriting_fit_after_checkpoint = False
                 else:
                     self.a.sample_posterior(n_samples=4, sampler="importance", **kw)
+                if targets_file:
+                    self.last_file_sampler = SAMPLER_CLASS[sampler]
+            elif kind == "sample-crash":
+                # an SMC run with two temperatures that is interrupted (exception from the user's likelihood / prior)
+                # at the first user call after it has written a checkpoint; the user catches the exception and goes on
+                how = act[1]
+                kw = {"checkpoint_path": self.path} if how == "path" else {}
+                torch.manual_seed(1)
+                before = checkpoint_stamp(self.path)
+                self.mon.armed = lambda: checkpoint_stamp(self.path) not in (before, "busy")
+                try:
+                    self.a.sample_posterior(n_samples=4, sampler="smc", n_steps=2, adaptive=False,
+                                            sampler_kwargs={"n_steps": 1}, preconditioning="none", **kw)
+                except InjectedFault:
+                    self.crashes += 1
+                finally:
+                    self.mon.armed = None
+                self.overwriting_fit_after_checkpoint = False
+                self.last_file_sampler = "MiniPCNSMC"
             elif kind == "enter":
                 cm = self.a.auto_checkpoint(self.path, every=1)
                 cm.__enter__()
@@ -109,12 +172,14 @@ class World:
                 cm.__exit__(None, None, None)
             elif kind == "resume":
                 self.a = Aspire.resume_from_file(self.path, log_likelihood=self.mon.log_likelihood, log_prior=self.mon.log_prior)
+                self._watch_config_writes()
                 self.stack = []
                 self.fitted = True
                 self.resumed_instance = True
             elif kind == "resume-sample":
                 torch.manual_seed(1)
                 self.a.sample_posterior(n_steps=1, adaptive=False, sampler_kwargs={"n_steps": 1}, preconditioning="none")
+                self.last_file_sampler = SAMPLER_CLASS.get(getattr(self.a, "_last_sampler_type", None), self.last_file_sampler)
             else:
                 raise ValueError(act)
         except Exception as e:
@@ -168,7 +233,8 @@ class World:
         primed = (hasattr(self.a, "_resume_from_default"), getattr(self.a, "_resume_sampler_type", None))
         return (o["config"], o["flow"], o["file_eq_mem"], o["ckpt"], o["ckpt_file"], o["ckpt_mem"], len(self.stack), dv,
                 primed, self.fitted, getattr(self.a, "_last_sampler_type", None), self.error[0] if self.error else None,
-                self.last_fit_overwrite, self.overwriting_fit_after_checkpoint, self.resumed_instance)
+                self.last_fit_overwrite, self.overwriting_fit_after_checkpoint, self.resumed_instance, self.last_file_sampler,
+                self.config_writer)
 
 
 SAMPLER_CLASS = {"smc": "MiniPCNSMC", "minipcn_smc": "MiniPCNSMC", "emcee_smc": "EmceeSMC", "importance": "ImportanceSampler"}
@@ -178,7 +244,7 @@ def cause(hist, o):
     """Which part of the history explains a file flow that does not reproduce the checkpoint's log q
     (so that different root causes get different signatures)."""
     hist = [tuple(a) for a in hist]
-    ck = max((i for i, a in enumerate(hist) if (a[0] == "sample" and a[1] == "smc") or a[0] == "resume-sample"), default=None)
+    ck = max((i for i, a in enumerate(hist) if (a[0] == "sample" and a[1] == "smc") or a[0] in ("resume-sample", "sample-crash")), default=None)
     if ck is None:
         return "no-checkpointing-sample-in-history"
     fits_before = [a for a in hist[:ck] if a[0] == "fit"]
@@ -207,7 +273,10 @@ def invariant(w, hist=()):
         cls = SAMPLER_CLASS.get(o["config"], o["config"])
         if cls != o["ckpt"]:
             via = "after-resume_from_file" if any(tuple(a)[0] == "resume" for a in hist) else "no-resume"
-            out.append((f"C14/config-names-other-sampler/config={o['config']},checkpoint={o['ckpt']}/{via}", o))
+            # which of the two artefacts is the stale one: the last sampling call that targeted the file ran w.last_file_sampler
+            last = w.last_file_sampler
+            stale = "stale-checkpoint" if cls == last and o["ckpt"] != last else "stale-config" if o["ckpt"] == last else "neither-of-last-call"
+            out.append((f"C14/config-names-other-sampler/config={o['config']},checkpoint={o['ckpt']}/{via}/{stale}/config-written-by={w.config_writer}", o))
     return out, o
 
 
@@ -222,9 +291,11 @@ def enabled(w):
         acts.append(("fit", "B", False, how))
         acts.append(("fit", "B", True, how))
     if w.fitted:
-        for how in hows + ["none"]:
+        for how in hows + ([] if in_ctx else ["none"]):  # inside a context a call without a path is the "ctx" call
             acts.append(("sample", "smc", how))
             acts.append(("sample", "importance", how))
+        for how in hows:
+            acts.append(("sample-crash", how))
     if len(w.stack) < 2:
         acts.append(("enter",))
     if w.stack:
